@@ -17,7 +17,7 @@ import (
 
 // C02: every coalesced request completes: no lost wake-up, no stuck key.
 
-var c02Outcomes = []string{"cacheable", "nocache", "5xx", "abort", "nilresp", "hang", "panic_hook", "truncate", "client_abort"}
+var c02Outcomes = []string{"cacheable", "nocache", "5xx", "abort", "nilresp", "hang", "panic_hook", "truncate", "client_abort", "corrupt_gzip"}
 
 type c02Epoch struct {
 	Outcome string `json:"outcome"`
@@ -68,6 +68,11 @@ func c02History(r *hx.Run, w *W, rnd *rand.Rand, hi int, epochs []c02Epoch) {
 		case "nilresp":
 			// cacheable headers, but a body pike cannot decode: a positive lifetime and no response object
 			rep = &hx.Reply{Status: 200, Header: [][2]string{{"Cache-Control", "max-age=2"}, {"Content-Type", "text/plain"}}, Encoding: "lz4", Body: []byte("\xff\xff\xff\xffnot an lz4 block\x00\x01")}
+		case "corrupt_gzip":
+			// cacheable, compressible, announced as gzip - but the bytes are no gzip stream: storing it cannot
+			// build the other variants
+			junk := hx.PRNGBytes(f.ID, 2500, "rand")
+			rep = &hx.Reply{Status: 200, Header: [][2]string{{"Cache-Control", "max-age=2"}, {"Content-Type", "text/plain"}}, Encoding: "gzip", Body: junk}
 		case "hang":
 			rep = replyOf(f, ans{Kind: "cacheable", T: T})
 			rep.Gate = make(chan struct{}) // never answered: the proxy timeout ends the fetch
@@ -79,6 +84,8 @@ func c02History(r *hx.Run, w *W, rnd *rand.Rand, hi int, epochs []c02Epoch) {
 		return rep
 	})
 	rq := hx.Req{Addr: w.Addr, Host: "c02.example", URI: uri, Timeout: 20 * time.Second}
+	rqGzip := rq
+	rqGzip.Header = map[string][]string{"Accept-Encoding": {"gzip"}}
 	var trace []interface{}
 	for ei, ep := range epochs {
 		cs := map[string]interface{}{"uri": uri, "epoch": ei, "spec": ep, "history": epochs}
@@ -105,7 +112,11 @@ func c02History(r *hx.Run, w *W, rnd *rand.Rand, hi int, epochs []c02Epoch) {
 		fetcherClient := hx.NewClient(w.Clock.Now)
 		go func() {
 			defer close(doneF)
-			resF = fetcherClient.Do(rq)
+			if ep.Outcome == "corrupt_gzip" {
+				resF = fetcherClient.Do(rqGzip) // otherwise Go's transport would ask for gzip itself and fail to decode
+			} else {
+				resF = fetcherClient.Do(rq)
+			}
 		}()
 		if !hx.WaitUntil(15*time.Second, func() bool { return w.Farm.InflightKey(key) >= 1 }) {
 			r.Inconclusive("C02: fetcher did not reach the origin")
@@ -266,6 +277,10 @@ func c02History(r *hx.Run, w *W, rnd *rand.Rand, hi int, epochs []c02Epoch) {
 				}
 			}
 			switch {
+			case ep.Outcome == "corrupt_gzip" && res.Err == nil:
+				// whatever pike makes of an undecodable upstream body (an error status for clients that need it
+				// decoded) - the waiter was released and answered
+				fromFetch++
 			case res.Err == nil && res.Label == "hit" && res.FetchID == fid && own == 0 && (ep.Outcome == "cacheable" || ep.Outcome == "client_abort" || ep.Outcome == "panic_hook"):
 				fromFetch++
 			case res.Err == nil && res.Status == 200 && own == 1 && (res.Label == "hitForPass" || res.Label == "fetching"):
@@ -295,7 +310,12 @@ func c02History(r *hx.Run, w *W, rnd *rand.Rand, hi int, epochs []c02Epoch) {
 		// the next request is served normally
 		probe := w.Cl.Do(rq)
 		okLabel := probe.Label == "hit" || probe.Label == "hitForPass" || probe.Label == "fetching"
-		if probe.Err != nil || probe.Status != 200 || !okLabel || !probe.HasIdent || probe.Ident.URI != uri {
+		if ep.Outcome == "corrupt_gzip" {
+			if probe.Err != nil {
+				r.Violate("followup_not_served", map[string]string{"outcome": ep.Outcome, "variant": ep.Variant}, "the request after the fetch of an undecodable body did not return", map[string]interface{}{"probe": probe.Brief(), "trace": trace}, cs)
+				return
+			}
+		} else if probe.Err != nil || probe.Status != 200 || !okLabel || !probe.HasIdent || probe.Ident.URI != uri {
 			r.Violate("followup_not_served", map[string]string{"outcome": ep.Outcome, "variant": ep.Variant}, "the request after the fetch ended was not served normally", map[string]interface{}{"probe": probe.Brief(), "trace": trace}, cs)
 			return
 		}
@@ -303,7 +323,7 @@ func c02History(r *hx.Run, w *W, rnd *rand.Rand, hi int, epochs []c02Epoch) {
 		if ep.Outcome == "cacheable" && ep.Variant != "held_registered_purge" {
 			wantLabel = "hit"
 		}
-		if ep.Variant != "evicted_during_fetch" && ep.Variant != "held_registered_purge" && ep.Outcome != "client_abort" && ep.Outcome != "panic_hook" && probe.Label != wantLabel {
+		if ep.Variant != "evicted_during_fetch" && ep.Variant != "held_registered_purge" && ep.Outcome != "client_abort" && ep.Outcome != "panic_hook" && ep.Outcome != "corrupt_gzip" && probe.Label != wantLabel {
 			// served normally is all this property asks of the follow-up; which label it carries is C01/C07
 			r.Add("followups_with_another_label_than_the_model_(info)", 1)
 		}
@@ -338,7 +358,7 @@ func cancelClient(c *hx.Client) {
 func c02(r *hx.Run) {
 	r.MaxViol = 3 // violations here usually cost a watchdog period each
 	r.Level = "fault_enumeration"
-	r.Rule = "quick: every fetch outcome {cacheable, uncacheable, 5xx, upstream protocol error, cacheable headers with an undecodable body (no response object), hang > ProxyTimeout (504), panic at the proxy hook, truncated upstream body (net/http abort panic), fetcher's client drops its connection} x every waiter position {parked, one waiter registered but not yet receiving, the same + purge of the key, arriving after completion} x repeats; thorough adds random outcome sequences of length 2-6 on one key. Verdict at quiescence on hooked entry state (status, registered waiters), on every request having returned, and on a follow-up request. Non-trivial = history in which >=1 waiter was parked; distinct = (outcome,variant,waiters) sequence."
+	r.Rule = "quick: every fetch outcome {cacheable, uncacheable, 5xx, upstream protocol error, cacheable headers with an undecodable body (no response object), hang > ProxyTimeout (504), panic at the proxy hook, truncated upstream body (net/http abort panic), fetcher's client drops its connection, cacheable response announced as gzip whose bytes are no gzip stream} x every waiter position {parked, one waiter registered but not yet receiving, the same + purge of the key, arriving after completion} x repeats; thorough adds random outcome sequences of length 2-6 on one key. Verdict at quiescence on hooked entry state (status, registered waiters), on every request having returned, and on a follow-up request. Non-trivial = history in which >=1 waiter was parked; distinct = (outcome,variant,waiters) sequence."
 	r.Assume = []string{"virtual clock, hook points (tag-guarded)", "ProxyTimeout 200ms so that a hanging upstream ends the fetch", "-race build"}
 	rnd := rand.New(rand.NewSource(r.Seed))
 	w := newSimpleWorld(r, hx.SimpleCfg{CacheName: "c02", CacheSize: 16, HitForPass: "2s", Timeout: "200ms"}, 1, true)
